@@ -218,11 +218,14 @@ impl ObjectTransmissionInformation {
         let kl = |n: u32| -> u32 {
             for &(kprime, _, _, _, _) in SYSTEMATIC_INDICES_AND_PARAMETERS.iter().rev() {
                 let x = int_div_ceil(symbol_size as u64, alignment as u64 * n as u64);
-                if kprime <= (decoder_memory_requirement / (alignment as u64 * x as u64)) as u32 {
+                // Compared in u64: narrowing the quotient to u32 would wrap for large memory budgets
+                if kprime as u64 <= decoder_memory_requirement / (alignment as u64 * x as u64) {
                     return kprime;
                 }
             }
-            unreachable!();
+            // No K' fits the memory budget with n sub-blocks: KL(n) is undefined (0), so this n
+            // does not satisfy the condition of section 4.3 and a larger n has to be chosen
+            0
         };
 
         let num_source_blocks = int_div_ceil(kt as u64, kl(n_max) as u64);
